@@ -11,7 +11,8 @@ run_one() {
   p="$1"; [ -f "$p" ] || exit 0
   case "$p" in seeded/*) id=$(basename $(dirname "$p") | cut -c1-3); name=$(basename $(dirname "$p"))
                          alt=$(jq -r '.selftest_check // empty' "$(dirname "$p")/meta.json" 2>/dev/null); [ -n "$alt" ] && id=$alt
-                         [ "$alt" = none ] && { echo "NOTCLAIMED $name"; exit 0; };;
+                         [ "$alt" = none ] && { echo "NOTCLAIMED $name"; exit 0; }
+                         [ "$alt" = not_reached ] && { echo "NOTREACHED $name"; exit 0; };;
                *) id=$(basename "$p" | cut -d_ -f1); name=$(basename "$p" .patch);; esac
   wt=$(mktemp -d /tmp/wt-self.XXXXXX); rmdir "$wt"
   git -C /repo worktree add -q --detach "$wt" HEAD >/dev/null 2>&1 || { echo "$name: worktree failed"; exit 0; }
